@@ -5,7 +5,12 @@ caller scribbles over returned arrays} on ONE network object, then the final cyc
 and compares all Signal.state / Signal.sensitivity values with a freshly constructed identical network evaluated once (constructed
 before and after the history ran) and with independent dense references.  Along the way: after every reset() no signal carries a
 non-zero sensitivity; sensitivity() without a seed changes nothing; source states and the caller's seed arrays are not modified.
-The machinery (nets, interpreter, comparison) lives in native/C03_core.py, whose source is embedded verbatim in every replay file."""
+EigenSolve additionally runs histories with PARTIALLY seeded outputs (single eigenvector columns / eigenvalues only) in which sensitivity() follows a reset() without a new
+response() (core.eig_partial_case); Signal.reset with keep_alloc is run on sensitivities that hold inf / nan from an earlier round (core.primitive_case '..._nonfinite').
+The machinery (nets, interpreter, comparison) lives in native/C03_core.py, whose source is embedded verbatim in every replay file.
+
+Findings kept visible:  C04-soe-overwrites-input, C03-linsolve-rhs-shape-change (see _finding);  C03-reset-keepalloc-scalar-nonfinite  Signal.reset(keep_alloc) on a python / numpy
+SCALAR sensitivity (e.g. pre-allocated as 0.0) that holds inf or nan falls back to `sensitivity *= 0` = nan: the reset leaves nan behind and every later cycle is nan."""
 import contextlib
 import inspect
 import signal
@@ -15,6 +20,7 @@ from native.util import bound, REPLAY_HEAD
 CORE_SRC = inspect.getsource(core)
 F_SOE = 'C04-soe-overwrites-input'
 F_SHAPE = 'C03-linsolve-rhs-shape-change'
+F_NONFIN = 'C03-reset-keepalloc-scalar-nonfinite'
 
 
 def _replay(call):
@@ -101,6 +107,38 @@ def reset_and_unseeded_primitives(r, tier, seed):
                 replay_code=_replay(f"primitive_case({name!r}, {arg!r}, {seed})"))
 
 
+NONFIN_ARRAYS = ('vec', 'mat', 'cvec', 'zerod', 'czerod', 'ivec')
+NONFIN_SCALARS = ('pyfloat', 'npfloat', 'pycomplex')
+NONFIN_PLANS = ('poison-once', 'poison-twice-no-reset', 'poison-first')
+
+
+def _nonfinite(r, seed, kinds, netkinds, finding=None):
+    cases = [('signal_reset_nonfinite', (k, how, b)) for k in kinds for how in ('prealloc', 'keep') for b in (('inf', '-inf', 'nan', 'mixed') if k != 'ivec' else ('huge',))]
+    cases += [('network_reset_nonfinite', (k, v)) for k in netkinds for v in NONFIN_PLANS]
+    for name, arg in cases:
+        fails = _guarded(core.primitive_case, name, arg, seed)
+        r.case((name, arg))
+        fid = finding if fails and all('must be exactly 0' in f['what'] for f in fails) else None
+        r.check(not fails, fails[0]['what'] if fails else '', dict(case=name, arg=arg, seed=seed), observed=[f['what'] for f in fails[:4]], expected='exactly 0 after reset(), later rounds as a fresh network',
+                replay_code=_replay(f"primitive_case({name!r}, {arg!r}, {seed})"), finding=fid)
+
+
+@bound('Signal.reset with keep_alloc when the sensitivity holds NON-FINITE values left by an earlier round: array sensitivities {vector, (2,3) matrix, complex vector, 0-d real, 0-d complex; int64 vector with +-max/4 '
+       'instead of inf} x {constructed with a pre-allocated sensitivity + reset(), ordinary signal + reset(keep_alloc=True)} x poison {inf, -inf, nan, mixed inf/nan/finite (complex: also in the imaginary part)}: after reset() '
+       'every entry is exactly 0 (no nan), same array object and dtype, the next add_sensitivity gives exactly the new value, a second round stays clean; network x (pre-allocated sensitivity; vector, complex vector, '
+       'matrix, 0-d) -> y = sqrt(x) whose back-propagation dy/(2 sqrt(x)) is inf / nan in the rounds where x has exact zeros: plans {clean, poisoned, clean, clean}, {clean, poisoned with two sensitivity() calls, clean}, '
+       '{poisoned, clean, poisoned, clean}; every clean round equals a fresh network and the closed form to 1e-14, every reset leaves exact zeros in the same array')
+def reset_nonfinite_keep_alloc(r, tier, seed):
+    for sd in ([seed] if tier == 'quick' else range(seed, seed + 3)):
+        _nonfinite(r, sd, NONFIN_ARRAYS, ('vec', 'cvec', 'mat', 'zerod'))
+
+
+@bound('as reset_nonfinite_keep_alloc for SCALAR sensitivities (python float, numpy float64, python complex; pre-allocated as 0.0 or kept by reset(keep_alloc=True)) and the network x -> sqrt(x) with a python-float x '
+       'whose sensitivity is pre-allocated as 0.0: Signal.reset falls back to `sensitivity *= 0` for objects without item assignment, and inf * 0 = nan * 0 = nan, so every later round is nan', finding=F_NONFIN)
+def reset_nonfinite_scalar_keep_alloc(r, tier, seed):
+    _nonfinite(r, seed, NONFIN_SCALARS, ('pyfloat',), F_NONFIN)
+
+
 LIN_DENSE = [('linsolve', 'dense', c, rhs, lda) for c in ('spd', 'symindef', 'nonsym', 'herm', 'csym', 'cgen') for rhs in ('vec', 'blk') for lda in (True, False)] + \
             [('linsolve', 'dense', c, 'cvec', lda) for c in ('spd', 'symindef', 'nonsym') for lda in (True, False)]
 LIN_SPARSE = [('linsolve', 'sparse', c, rhs, lda) for c in ('spd', 'symindef', 'nonsym', 'herm', 'csym', 'cgen') for rhs in ('vec', 'blk') for lda in (True, False)]
@@ -150,6 +188,33 @@ def history_eigensolve(r, tier, seed):
     _sweep(r, EIG, tier, seed)
     if tier == 'thorough':
         _sweep(r, [s + (10,) for s in EIG[:4]] + [s + (24,) for s in EIG[4:]], 'quick', seed + 10)
+
+
+def _run_partial(r, spec, variant, seed):
+    fails = _guarded(core.eig_partial_case, spec, variant, seed)
+    r.case((spec, variant, seed))
+    if fails:
+        # the sporadic RuntimeError of the sparse eigenvector adjoint (LU of the singular A - lambda B) is a known defect of the fresh evaluation, not a history effect
+        fid = 'C01-eigensolve-sparse-singular-factor' if all(f['kind'] == 'exception' and 'exactly singular' in f['what'] for f in fails) else None
+        r.check(False, fails[0]['what'], dict(net=spec, history=variant, seed=seed), observed=[f['kind'] + ': ' + f['what'] for f in fails[:4]], expected='no contract failure',
+                replay_code=_replay(f"eig_partial_case({spec!r}, {variant!r}, {seed})"), finding=fid)
+
+
+@bound('EigenSolve with PARTIALLY seeded outputs, the 8 nets of history_eigensolve (dense 6x6 symmetric / Hermitian / generalised / non-Hermitian, all 6 modes; sparse tridiagonal 12x12, nmodes=3, standard / generalised, '
+       'sigma = 0 / != 0): 3-5 rounds with a NEW matrix each (fresh objects or updated in place), ONE response() per round followed by 1-3 cycles {seed, sensitivity(), compare, reset()} whose seeds are exactly zero '
+       'outside a subset: all columns (first round: every per-mode cache filled) -> single columns 0, 1, 2 in turn -> other single columns / pairs -> eigenvalues only then one column -> one eigenvalue + one column; from the second cycle of a '
+       'round on, sensitivity() follows a reset() WITHOUT a new response() and seeds a column last seeded in an earlier round for an earlier matrix; 4 named histories + 2 random ones (dense nets in the quick tier: 2 + 1) [quick] / 4 + 8 [thorough], 1 / 3 data seeds, thorough also 10x10 / 24x24; '
+       'after every sensitivity(): all states and sensitivities equal a freshly constructed network on the current matrices with the same seed (1e-10 dense / 1e-9 ARPACK); real symmetric pencils also against the independent '
+       'adjoint sum_j (q_j.w_i)/(lam_i-lam_j) q_j q_i^T from a full numpy.linalg.eigh decomposition (1e-8, gaps >= 1); sources and seed arrays unmodified; nothing left after every reset()')
+def history_eigensolve_partial_seeds(r, tier, seed):
+    specs = EIG if tier == 'quick' else EIG + [s + (10,) for s in EIG[:4]] + [s + (24,) for s in EIG[4:]]
+    for sd in ([seed] if tier == 'quick' else [seed, seed + 1, seed + 2]):
+        for spec in specs:
+            variants = core.EIG_PARTIAL + [('rand', i) for i in range(2 if tier == 'quick' else 8)]
+            if tier == 'quick' and spec[0] == 'eigdense':      # the dense path keeps no per-mode cache: two named histories and one random one in the quick tier
+                variants = core.EIG_PARTIAL[:2] + [('rand', 0)]
+            for variant in variants:
+                _run_partial(r, spec, variant, sd)
 
 
 OVERHANG = [('overhang', (4, 3, 0), '+y', None, True), ('overhang', (4, 3, 0), 'y-', None, True), ('overhang', (3, 4, 0), 'x', None, False),
@@ -216,9 +281,9 @@ def history_linsolve_rhs_shape_change(r, tier, seed):
                ('linsolve', 'dense', 'spd', 'mixed', False)], tier, seed, nrand=1, finals=False)
 
 
-CHECKS = [('reset_and_unseeded_primitives', reset_and_unseeded_primitives), ('history_linsolve_dense', history_linsolve_dense),
+CHECKS = [('reset_and_unseeded_primitives', reset_and_unseeded_primitives), ('reset_nonfinite_keep_alloc', reset_nonfinite_keep_alloc), ('history_linsolve_dense', history_linsolve_dense),
           ('history_linsolve_sparse', history_linsolve_sparse), ('history_compliance_iterative', history_compliance_iterative),
-          ('history_eigensolve', history_eigensolve), ('history_overhang_filters_assembly', history_overhang_filters_assembly),
+          ('history_eigensolve', history_eigensolve), ('history_eigensolve_partial_seeds', history_eigensolve_partial_seeds), ('history_overhang_filters_assembly', history_overhang_filters_assembly),
           ('history_soe_condensation', history_soe_condensation), ('history_aggregation_slices', history_aggregation_slices),
           ('documented_memories', documented_memories), ('history_soe_source_matrix', history_soe_source_matrix),
-          ('history_linsolve_rhs_shape_change', history_linsolve_rhs_shape_change)]
+          ('history_linsolve_rhs_shape_change', history_linsolve_rhs_shape_change), ('reset_nonfinite_scalar_keep_alloc', reset_nonfinite_scalar_keep_alloc)]
